@@ -310,6 +310,7 @@ func (x *Exec) mapKey(st *State, k *Term, kt types.Type) *Term {
 	if !typeHasString(kt) {
 		return k
 	}
+	x.trusted["A-KEYS"] = true
 	switch u := kt.Underlying().(type) {
 	case *types.Basic:
 		return x.canonString(st, k, false)
